@@ -55,8 +55,12 @@ enum GOp {
     Link { r: u16, l: u8 },
     Sync { r: u16, l: u8 },
     Mut { r: u16, l: u8, cmd: MapCmd },
-    Burst { r: u16, l: u8, cmds: Vec<MapCmd> },
+    /// commands written back to back, optionally with a sync request of the same remote among them
+    Burst { r: u16, l: u8, cmds: Vec<MapCmd>, sync_at: Option<u8> },
     Prog { r: u16, p: usize },
+    /// mutations are executed while the lane's writer is busy, then (a few polls later) another remote syncs: the sync
+    /// request is written after the mutations happened but may reach the lane while their events are still queued
+    LateSync { r: u16, r2: u16, l: u8, cmds: Vec<MapCmd>, polls: usize },
 }
 
 fn arb_cmd(nkeys: usize) -> impl Strategy<Value = MapCmd> {
@@ -75,8 +79,11 @@ fn arb_gop(nprogs: usize, nkeys: usize) -> impl Strategy<Value = GOp> {
         2 => (any::<u16>(), any::<u8>()).prop_map(|(r, l)| GOp::Link { r, l }),
         6 => (any::<u16>(), any::<u8>()).prop_map(|(r, l)| GOp::Sync { r, l }),
         10 => (any::<u16>(), any::<u8>(), arb_cmd(nkeys)).prop_map(|(r, l, cmd)| GOp::Mut { r, l, cmd }),
-        4 => (any::<u16>(), any::<u8>(), proptest::collection::vec(arb_cmd(nkeys), 2..7)).prop_map(|(r, l, cmds)| GOp::Burst { r, l, cmds }),
+        5 => (any::<u16>(), any::<u8>(), proptest::collection::vec(arb_cmd(nkeys), 2..7), proptest::option::weighted(0.6, any::<u8>()))
+            .prop_map(|(r, l, cmds, sync_at)| GOp::Burst { r, l, cmds, sync_at }),
         3 => (any::<u16>(), 0..nprogs.max(1)).prop_map(|(r, p)| GOp::Prog { r, p }),
+        3 => (any::<u16>(), any::<u16>(), any::<u8>(), proptest::collection::vec(arb_cmd(nkeys), 2..5), 1usize..5)
+            .prop_map(|(r, r2, l, cmds, polls)| GOp::LateSync { r, r2, l, cmds, polls }),
         14 => arb_sched_op().prop_map(GOp::Plain),
     ]
 }
@@ -138,15 +145,32 @@ fn finish(maps: bool, active: &[usize], programs: &mut [Vec<Act>], gops: Vec<GOp
                 let body = render(lane, cmd, &mut next);
                 all.push(Op::Cmd { r, lane: lane as u8, body });
             }
-            GOp::Burst { r, l, cmds } => {
+            GOp::Burst { r, l, cmds, sync_at } => {
+                let lane = lane_of(l);
+                let at = sync_at.map(|a| 1 + (a as usize) % cmds.len());
+                for (i, cmd) in cmds.into_iter().enumerate() {
+                    let body = render(lane, cmd, &mut next);
+                    all.push(Op::Cmd { r, lane: lane as u8, body });
+                    if at == Some(i + 1) {
+                        opened.insert((pick_index(r, nrem), lane));
+                        all.push(Op::Sync { r, lane: lane as u8 });
+                    }
+                }
+                all.push(Op::Pump { r, n: usize::MAX });
+            }
+            GOp::Prog { r, p } => all.push(Op::Cmd { r, lane: 6, body: p.to_string() }),
+            GOp::LateSync { r, r2, l, cmds, polls } => {
                 let lane = lane_of(l);
                 for cmd in cmds {
                     let body = render(lane, cmd, &mut next);
                     all.push(Op::Cmd { r, lane: lane as u8, body });
                 }
                 all.push(Op::Pump { r, n: usize::MAX });
+                all.push(Op::Poll { k: polls });
+                opened.insert((pick_index(r2, nrem), lane));
+                all.push(Op::Sync { r: r2, lane: lane as u8 });
+                all.push(Op::Pump { r: r2, n: usize::MAX });
             }
-            GOp::Prog { r, p } => all.push(Op::Cmd { r, lane: 6, body: p.to_string() }),
         }
     }
     all
@@ -315,14 +339,7 @@ fn check_value_lane(v: &mut Verdict, st: &mut Stats, ri: usize, li: usize, rem: 
         .filter(|(l, r, _, _)| l == lane && *r == Req::Sync)
         .map(|s| s.3)
         .collect();
-    let link_q: Vec<u64> = rem
-        .sent
-        .iter()
-        .filter(|(l, r, _, _)| l == lane && *r == Req::Link)
-        .map(|s| s.2)
-        .collect();
     let mut linked = false;
-    let mut implicit = false;
     let mut linked_seq = 0u64;
     let mut last_idx: Option<usize> = None;
     let mut last_val: Option<i64> = None;
@@ -337,12 +354,6 @@ fn check_value_lane(v: &mut Verdict, st: &mut Stats, ri: usize, li: usize, rem: 
                     last_idx = None;
                     last_val = None;
                     events_in_session = 0;
-                    implicit = !link_q.iter().any(|q| *q < f.seq);
-                    if implicit {
-                        st.implicit += 1;
-                    } else {
-                        st.explicit += 1;
-                    }
                 }
             }
             FrameKind::Unlinked(_) => linked = false,
@@ -400,10 +411,16 @@ fn check_value_lane(v: &mut Verdict, st: &mut Stats, ri: usize, li: usize, rem: 
                 if events_in_session > 0 {
                     st.events_before_synced = true;
                 }
-                let suffix = if implicit { "/sync-without-link" } else { "/linked-first" };
+                let without = sync_without_link(rem, lane, j - 1);
+                if without {
+                    st.implicit += 1;
+                } else {
+                    st.explicit += 1;
+                }
+                let suffix = if without { "/sync-without-link" } else { "/linked-first" };
                 match last_val {
                     None => v.fail(
-                        format!("snapshot:value-missing{}", suffix),
+                        format!("value-lane-snapshot:no-value{}", suffix),
                         format!("remote {} lane {}: synced read at seq {} (request written at {}) but no event carried the lane's value before it", ri, lane, t1, t0),
                     ),
                     Some(val) => {
@@ -413,7 +430,7 @@ fn check_value_lane(v: &mut Verdict, st: &mut Stats, ri: usize, li: usize, rem: 
                         });
                         if !ok {
                             v.fail(
-                                format!("snapshot:value-outside-window{}", suffix),
+                                format!("value-lane-snapshot:value-outside-window{}", suffix),
                                 format!(
                                     "remote {} lane {}: sync request written at seq {}, synced read at seq {}: the remote's value is {} but the lane did not hold it at any instant of that window; history {:?}",
                                     ri, lane, t0, t1, val, hist
@@ -464,7 +481,10 @@ fn check(maps: bool, case: &Case) -> Verdict {
                 let s = check_map_sync(&mut v, ri, li, rem, &events);
                 st.syncs_completed += s.syncs_completed;
                 st.syncs_racing += s.syncs_racing;
-                st.implicit += s.implicit_links;
+                st.implicit += s.without_link;
+                st.explicit += s.after_link;
+                st.events_before_synced |= s.events_before_synced;
+                st.windows.extend(s.windows.iter().map(|(a, b)| (*a, *b, ri)));
                 if s.max_concurrent_keys >= 2 {
                     lane_backlog = true;
                 }
@@ -530,10 +550,10 @@ fn main() {
     ctx.assume("the agent-side lifecycle trace (on_event / on_update / on_remove / on_clear) is the ground truth for the states a lane held (checked independently by C06; map lanes: cross-checked against a probe sync in C02)");
     ctx.assume("[t0, t1] = [sync request fully written by the remote, synced frame read by the remote] contains the true window in which the lane served the sync, so requiring the replica's state to occur inside it is sound");
     ctx.assume("single-threaded harness-owned schedule; op-level interleavings of agent task vs remotes");
-    let n = ctx.pick(120_000, 3_000_000);
+    let n = ctx.pick(200_000, 6_000_000);
     let max_ops = ctx.pick(60, 200);
     ctx.prop("sync-map", n, move || arb_case(true, max_ops), |c: &Case| check(true, c));
-    let n = ctx.pick(80_000, 2_000_000);
+    let n = ctx.pick(120_000, 4_000_000);
     ctx.prop("sync-value", n, move || arb_case(false, max_ops), |c: &Case| check(false, c));
     ctx.finish();
 }
